@@ -26,6 +26,9 @@ type multiFetcher struct {
 	//
 	// Used to identify which fetcher to get the rest of the fields from in `GetFields`.
 	currentFetcherIndex int
+
+	// True while the document last returned from `NextDoc` has not been read with `GetFields`.
+	hasUnreadDoc bool
 }
 
 var _ fetcher = (*multiFetcher)(nil)
@@ -55,6 +58,13 @@ type fetcherDocID struct {
 }
 
 func (f *multiFetcher) NextDoc() (immutable.Option[string], error) {
+	if f.hasUnreadDoc && f.currentFetcherIndex < len(f.children) {
+		// The caller moved on without reading the last document (e.g. access to it was denied),
+		// it must not be yielded again.
+		f.children[f.currentFetcherIndex].docID = immutable.None[string]()
+	}
+	f.hasUnreadDoc = false
+
 	selectedFetcherIndex := -1
 	var selectedDocID immutable.Option[string]
 
@@ -90,6 +100,7 @@ func (f *multiFetcher) NextDoc() (immutable.Option[string], error) {
 	}
 
 	f.currentFetcherIndex = selectedFetcherIndex
+	f.hasUnreadDoc = selectedDocID.HasValue()
 	return selectedDocID, nil
 }
 
@@ -100,6 +111,7 @@ func (f *multiFetcher) GetFields() (immutable.Option[EncodedDocument], error) {
 	}
 
 	f.children[f.currentFetcherIndex].docID = immutable.None[string]()
+	f.hasUnreadDoc = false
 
 	return doc, nil
 }
